@@ -1887,5 +1887,158 @@ theorem isModifiedFile_of_stamp {files : List (String × File)} {n : String} {f 
   unfold isModifiedFile
   simp [hf]
 
+
+/-! ## Completeness: one external rewrite of a loaded glyph's file, seen from a font in step -/
+
+theorem filterMap_single {α β : Type} (f : α → Option β) {l : List α} {a : α} {y : β} (hn : l.Nodup) (ha : a ∈ l)
+    (hfa : f a = some y) (hother : ∀ b ∈ l, b ≠ a → f b = none) : l.filterMap f = [y] := by
+  induction l with
+  | nil => simp at ha
+  | cons x r ih =>
+    simp only [List.nodup_cons] at hn
+    by_cases e : x = a
+    · subst e
+      have : r.filterMap f = [] := by
+        rw [List.filterMap_eq_nil_iff]
+        intro b hb
+        exact hother b (by simp [hb]) (fun e => hn.1 (e ▸ hb))
+      simp [List.filterMap_cons, hfa, this]
+    · have hx : f x = none := hother x (by simp) e
+      have ha' : a ∈ r := by
+        simp only [List.mem_cons] at ha
+        rcases ha with h | h
+        · exact absurd h.symm e
+        · exact h
+      simp [List.filterMap_cons, hx, ih hn.2 ha' fun b hb => hother b (by simp [hb])]
+
+theorem filterMap_single_key {κ α β : Type} [DecidableEq κ] (f : κ × α → Option β) {l : List (κ × α)} {k : κ} {v : α}
+    {y : β} (hn : (AL.keys l).Nodup) (hg : AL.get? l k = some v) (hf : f (k, v) = some y)
+    (hother : ∀ p ∈ l, p.1 ≠ k → f p = none) : l.filterMap f = [y] := by
+  induction l with
+  | nil => simp at hg
+  | cons x r ih =>
+    obtain ⟨k', v'⟩ := x
+    simp only [AL.keys, List.map_cons, List.nodup_cons] at hn
+    by_cases e : k' = k
+    · subst e
+      simp at hg; subst hg
+      have : r.filterMap f = [] := by
+        rw [List.filterMap_eq_nil_iff]
+        intro p hp
+        apply hother p (by simp [hp])
+        intro e
+        apply hn.1
+        rw [← e]
+        exact List.mem_map.2 ⟨p, hp, rfl⟩
+      simp [List.filterMap_cons, hf, this]
+    · simp [e] at hg
+      have hx : f (k', v') = none := hother (k', v') (by simp) e
+      simp [List.filterMap_cons, hx, ih (by simpa [AL.keys] using hn.2) hg fun p hp => hother p (by simp [hp])]
+
+/-- From a font in step with its UFO, after another program rewrote the file of a loaded, stamped
+glyph with other bytes and another modification time: the report is the quiet report with exactly
+one layer entry, whose `modified` is exactly that glyph. -/
+theorem report_after_xglyph_write {s : State} (h : Synced s) {ln gn : String} {l : MLayer} {g : MGlyph} {st : File}
+    {dl : DLayer} {b : Blob} {t : Time}
+    (hord : ln ∈ s.font.order) (hl : getLayer s ln = some l) (hdl : AL.get? s.disk.layers ln = some dl)
+    (hg : AL.get? l.glyphs gn = some g) (hst : g.stamp = some st) (hk : gn ∈ l.keys)
+    (hnodup : (AL.keys l.glyphs).Nodup) (hb : b ≠ st.blob) (ht : t ≠ st.mtime) :
+    report { s with disk := { s.disk with
+        layers := AL.set s.disk.layers ln { dl with glifs := AL.set dl.glifs gn ⟨b, t⟩ } } } =
+      { quietReport s with modified := [(ln, ⟨false, [gn], [], []⟩)] } := by
+  have hs := h.layerOf' hl dl hdl
+  -- the file exists
+  obtain ⟨f0, hf0, _⟩ := hs.glyphs gn g st (AL.mem_of_get? hg) hst
+  generalize hd' : ({ s.disk with layers := AL.set s.disk.layers ln { dl with glifs := AL.set dl.glifs gn ⟨b, t⟩ } } : Disk) = d'
+  have hnames : layerNames d' = layerNames s.disk := by
+    subst hd'; simp only [layerNames]; exact keys_set_of_get? _ hdl
+  have hget_ne : ∀ ln', ln ≠ ln' → AL.get? d'.layers ln' = AL.get? s.disk.layers ln' := by
+    intro ln' e; subst hd'; simp [e]
+  have hget_self : AL.get? d'.layers ln = some { dl with glifs := AL.set dl.glifs gn ⟨b, t⟩ } := by
+    subst hd'; simp
+  have hq := report_quiet h
+  -- the other fields are those of the quiet report
+  have e1 : report { s with disk := d' } =
+      { report s with modified := layersModified { s with disk := d' }
+                      order := decide (layerNames d' ≠ s.font.order)
+                      added := layersAdded { s with disk := d' }
+                      deleted := layersDeleted { s with disk := d' } } := by
+    subst hd'; rfl
+  have eadded : layersAdded { s with disk := d' } = layersAdded s := by
+    unfold layersAdded; simp only [hnames]
+  have edeleted : layersDeleted { s with disk := d' } = layersDeleted s := by
+    unfold layersDeleted; simp only [hnames]
+  -- the entry of every other layer is unchanged (and absent)
+  have hother : ∀ ln' ∈ s.font.order, ln' ≠ ln → layerEntry { s with disk := d' } ln' = none := by
+    intro ln' hln' e
+    have e' : ln ≠ ln' := fun x => e x.symm
+    obtain ⟨l', dl', h1, h2, h3⟩ := h.layers ln' hln'
+    unfold layerEntry
+    simp only [hget_ne ln' e', h1, h2]
+    have : layerRep d' ln' l' dl' = layerRep s.disk ln' l' dl' := by
+      unfold layerRep layerModified layerAdded layerDeleted isModifiedGlyph isAddedGlyph glifNames glifOf
+      simp only [hget_ne ln' e']
+    rw [this, layerRep_quiet h2 h3]
+    simp
+  -- the entry of the layer concerned
+  have hglif : ∀ x, gn ≠ x → glifOf d' ln x = glifOf s.disk ln x := by
+    intro x e
+    simp only [glifOf, hget_self, hdl]
+    exact AL.get?_set_ne _ _ _ _ e
+  have hglif_self : glifOf d' ln gn = some ⟨b, t⟩ := by
+    simp only [glifOf, hget_self]
+    exact AL.get?_set_self _ _ _
+  have hgnames : glifNames d' ln = glifNames s.disk ln := by
+    simp only [glifNames, hget_self, hdl]
+    exact keys_set_of_get? _ hf0
+  have hmod : layerModified d' ln l = [gn] := by
+    unfold layerModified
+    apply filterMap_single_key _ hnodup hg
+    · unfold isModifiedGlyph
+      simp only [hglif_self, hst, fileChanged]
+      simp [hb, ht]
+    · intro p hp hne
+      obtain ⟨x, gx⟩ := p
+      have e : gn ≠ x := fun e => hne e.symm
+      have hq' := layerModified_quiet hdl hs
+      unfold layerModified at hq'
+      rw [List.filterMap_eq_nil_iff] at hq'
+      have := hq' (x, gx) hp
+      unfold isModifiedGlyph at this ⊢
+      simp only [hglif x e]
+      exact this
+  have hadd : layerAdded d' ln l = [] := by
+    unfold layerAdded
+    rw [hgnames, List.filter_eq_nil_iff]
+    intro x hx
+    have hq' := layerAdded_quiet hdl hs
+    unfold layerAdded at hq'
+    rw [List.filter_eq_nil_iff] at hq'
+    have hx' := hq' x hx
+    by_cases e : gn = x
+    · subst e; simp [isAddedGlyph, hk]
+    · unfold isAddedGlyph at hx' ⊢
+      simp only [hglif x e]
+      exact hx'
+  have hdel : layerDeleted d' ln l = [] := by
+    unfold layerDeleted
+    rw [hgnames]
+    exact layerDeleted_quiet hdl hs
+  have hself : layerEntry { s with disk := d' } ln = some (ln, ⟨false, [gn], [], []⟩) := by
+    unfold layerEntry
+    have hlm : AL.get? s.font.layers ln = some l := hl
+    simp only [hget_self, hlm]
+    unfold layerRep
+    simp only [hmod, hadd, hdel, hs.info]
+    simp [LayerRep.isEmpty]
+  have emod : layersModified { s with disk := d' } = [(ln, ⟨false, [gn], [], []⟩)] := by
+    unfold layersModified
+    exact filterMap_single _ h.nodupOrder hord hself hother
+  rw [e1, eadded, edeleted, emod, hnames]
+  have h2 : decide (layerNames s.disk ≠ s.font.order) = (report s).order := rfl
+  have h3 : layersAdded s = (report s).added := rfl
+  have h4 : layersDeleted s = (report s).deleted := rfl
+  rw [h2, h3, h4, hq]
+
 end Ext
 end DefconModel
